@@ -25,6 +25,19 @@ def is_reached_through(barrier: Operation, op: Operation) -> bool:
     return False
 
 
+def common_loop(op: Operation, other: Operation) -> scf.ForOp | None:
+    """
+    The innermost scf.for whose body holds both operations (at any depth): a dependency between them
+    also wraps around the back edge of that loop, whatever scf.if or inner loop either of them sits in.
+    """
+    parent = op.parent_op()
+    while parent is not None:
+        if isinstance(parent, scf.ForOp) and parent is not other and parent.is_ancestor(other):
+            return parent
+        parent = parent.parent_op()
+    return None
+
+
 class InsertSyncBarrier(ModulePass):
     """This pass inserts  snax synchronisation barriers in a program.
     Synchronisation barriers are required when data is shared between
@@ -64,17 +77,13 @@ class InsertSyncBarrier(ModulePass):
 
                     if dispatch_to_dm(op_in_module, ctx) and not dispatch_to_dm(op_use.operation, ctx):
                         ops_to_sync.append(op_use.operation)
-                        if op_in_module.parent_op() == op_use.operation.parent_op() and isinstance(
-                            for_op := op_in_module.parent_op(), scf.ForOp
-                        ):
+                        if (for_op := common_loop(op_in_module, op_use.operation)) is not None:
                             assert isinstance(for_op.body.block.last_op, scf.YieldOp)
                             ops_to_sync.append(for_op.body.block.last_op)
 
                     if dispatch_to_compute(op_in_module, ctx) and not dispatch_to_compute(op_use.operation, ctx):
                         ops_to_sync.append(op_use.operation)
-                        if op_in_module.parent_op() == op_use.operation.parent_op() and isinstance(
-                            for_op := op_in_module.parent_op(), scf.ForOp
-                        ):
+                        if (for_op := common_loop(op_in_module, op_use.operation)) is not None:
                             assert isinstance(for_op.body.block.last_op, scf.YieldOp)
                             ops_to_sync.append(for_op.body.block.last_op)
 
